@@ -1,6 +1,8 @@
 //! erbium-verif: drivers that replay scenarios into the real erbium code and
 //! record NDJSON traces for validation by TLC.  See /verif/DESIGN.md.
 mod dhcp;
+mod dnswalk;
+mod dnswire;
 mod policy;
 mod store;
 mod wire;
@@ -15,6 +17,7 @@ fn main() {
     match args[1].as_str() {
         "dhcp" => dhcp::main(&args[2..]),
         "policy" => policy::main(&args[2..]),
+        "dnswire" => dnswire::main(&args[2..]),
         "store" => store::main(&args[2..]),
         "wire" => wire::main(&args[2..]),
         d => {
